@@ -872,7 +872,7 @@ func bnGen(r *Rng) burnInput {
 				}
 			}
 			if r.Chance(40) {
-				cs = append(cs, daoCoin{4, big.NewInt(int64(1 + r.Intn(500)))})
+				cs = bnAddExtra(r, cs)
 			}
 			if len(cs) == 0 {
 				continue
@@ -893,7 +893,7 @@ func bnGen(r *Rng) burnInput {
 				}
 			}
 			if r.Chance(30) {
-				cs = append(cs, daoCoin{4, big.NewInt(int64(1 + r.Intn(500)))})
+				cs = bnAddExtra(r, cs)
 			}
 			if len(cs) == 0 {
 				continue
@@ -967,4 +967,19 @@ func burnsDriver(cfg Config, out *Out) error {
 		out.Emit(burnsRunCase(fmt.Sprintf("s%d-%d", cfg.Seed, i), bnGen(r.Fork())))
 	}
 	return nil
+}
+
+// bnAddExtra adds one more denomination (any of the non-native ones, so that over a history the
+// community pool meets new denominations that sort before, between and after the ones it holds)
+// and keeps the coins sorted by denomination.
+func bnAddExtra(r *Rng, cs []daoCoin) []daoCoin {
+	d := 1 + r.Intn(4)
+	for _, c := range cs {
+		if c.D == d {
+			return cs
+		}
+	}
+	cs = append(cs, daoCoin{d, big.NewInt(int64(1 + r.Intn(500)))})
+	sort.Slice(cs, func(i, j int) bool { return cs[i].D < cs[j].D })
+	return cs
 }
